@@ -286,7 +286,7 @@ impl Prop for C02 {
             Leg {
                 name: "random",
                 kind: LegKind::Random {
-                    cases: tier.pick(400, 3000),
+                    cases: tier.pick(6000, 20000),
                 },
                 workers: 16,
                 build: Build::Normal,
